@@ -492,8 +492,16 @@ PROPS["C06"] = dict(
 PROPS["C14"] = dict(
     title="Concurrent single operations are linearizable and no write is lost",
     modules=["FjallModel.Props.C14"],
-    theorems=["Fjall.Conc.c14_linearizable", "Fjall.Conc.c14_real_time", "Fjall.Conc.c14_orders_agree", "Fjall.Conc.c14_final_content"],
+    theorems=["Fjall.Conc.c14_linearizable", "Fjall.Conc.c14_real_time", "Fjall.Conc.c14_orders_agree", "Fjall.Conc.c14_final_content",
+              "Fjall.Stall.c14_stall_no_deadlock", "Fjall.Stall.c14_stall_bounded_work",
+              "Fjall.Stall.c14_worker_blocking_send_deadlocks", "Fjall.Stall.c14_stall_inside_lock_deadlocks"],
     statements={
+        "c14_stall_no_deadlock": "Stall model (writers: lock / write+unlock+rotation request / stall check; workers: rotation requests and flushes through a bounded channel and the journal "
+                                 "lock), any capacity, any threshold >= 1, any writers and programs, >= 1 worker, every schedule: in every reachable state with an unfinished writer some "
+                                 "thread's next step is effective and lowers rank",
+        "c14_stall_bounded_work": "every schedule has at most 11 x (number of writes) effective steps; with no_deadlock: any fair scheduler lets every writer finish",
+        "c14_worker_blocking_send_deadlocks": "with the pre-F24 blocking send a reachable state exists where the writer waits for a flush and the only worker for room in its own channel: nothing enabled",
+        "c14_stall_inside_lock_deadlocks": "with the stall check inside the journal critical section (seeded C14-2) a reachable state exists where nothing is enabled",
         "c14_linearizable": "forall programs and schedules: replaying the linearization points (a write at its memtable apply inside the journal critical section, a latest read at its read) in "
                             "history order against a sequential map reproduces the result of every read",
         "c14_real_time": "calls and returns of a thread alternate and every linearization point lies between its operation's call and return, so the linearization order extends real-time order",
@@ -504,10 +512,12 @@ PROPS["C14"] = dict(
     rule="as C06; additionally every Keyspace::get result is compared with the model at its linearization point, block probes check that insert / remove / batch commit / rotate_memtable "
          "cannot enter the journal critical section while another thread is inside, and the final content of every key is compared with 'acknowledged writes in seqno order'",
     trusted_base=CONC_TB,
-    assumptions=["the write-stall clause (writers proceed eventually) is reduced to the lock discipline: stalled writers wait outside the journal lock; scheduler fairness is not modelled"],
+    assumptions=["the write-stall clause is proved on the Stall model, whose tie to the code is scenario-level (stall probe: 4 sealed memtables, a halted writer and the flush worker "
+                 "must both finish; worker-channel probe: full channel, the only worker must drain it and flush) rather than step-by-step; L0-run throttling (sleep loops on l0_run_count) "
+                 "and compaction progress inside lsm-tree are not modelled; fairness of the OS scheduler is assumed"],
     level_text="Lean 4 theorems over all programs and schedules (linearization by forward simulation with explicit linearization points, bracket discipline of the history, order agreement); "
                "tied to the real crate by schedule-controlled runs of real threads",
-    level_note="partial: journal rotation and flush content are covered sequentially (C01/C04/C10); liveness under the write stall is not a theorem",
+    level_note="journal rotation and flush content are covered sequentially (C01/C04/C10); liveness = deadlock freedom + bounded work on the Stall model, tied by probes only",
     technique="Lean 4 proof (forward simulation to a sequential map, history invariants) + schedule-controlled differential correspondence",
     design_ref="6 C14",
 )
